@@ -295,6 +295,8 @@ def run(ctx):
     scope.rule_scope_entered(ctx, "R2.12")
     scope.rule_who_raises_ref_error(ctx, "R2.13")
     scope.rule_custom_scheme_refs(ctx, "R2.15")
+    # R2.19: a relative reference is relative whatever follows its first segment (C02-r8m1: a scheme test that looks anywhere in the reference)
+    scope.rule_ordinary_join(ctx, "R2.19")
     # R2.17: a reference leaves its scope when its errors have been taken: nothing keeps a half-consumed error iterator alive (C02-r6m1)
     from .c07 import rule_no_held_iterator
     rule_no_held_iterator(ctx, "R2.17")
